@@ -137,7 +137,7 @@ def _index_helpers(cb, ext):
 
 def _get_cluster_type(cb, ext):
     e0 = z3.Int("l2_entry0")
-    return FnContract(FILE, "get_cluster_type", ["C01"], lambda: GeomModel(cb, ext),
+    return FnContract(FILE, "get_cluster_type", ["C01", "C07"], lambda: GeomModel(cb, ext),
                       params=lambda m: {"qcow2": ObjV("qcow2"), "l2_entry": IntV(e0)},
                       requires=lambda m: [e0 >= 0, e0 <= U64],
                       post=lambda eng, st, rv: [("cluster_type_per_qcow2_txt", eng.as_int(rv, st, None) == eng.model.spec_cluster_type(e0))],
@@ -146,7 +146,7 @@ def _get_cluster_type(cb, ext):
 
 def _get_subcluster_type_std(cb):
     e0, b0, i0 = z3.Ints("l2_entry0 l2_bitmap0 sc_index0")
-    return FnContract(FILE, "get_subcluster_type", ["C01"], lambda: GeomModel(cb, False),
+    return FnContract(FILE, "get_subcluster_type", ["C01", "C07"], lambda: GeomModel(cb, False),
                       # without sub-clusters the only sub-cluster index is 0 and the bitmap is 0 (L2Table.bitmap): concrete parameters
                       params=lambda m: {"qcow2": ObjV("qcow2"), "l2_entry": IntV(e0), "l2_bitmap": IntV(z3.IntVal(0)), "sc_index": IntV(z3.IntVal(0))},
                       requires=lambda m: [e0 >= 0, e0 <= U64],
@@ -162,7 +162,7 @@ def _get_subcluster_range_type_std(cb):
         t, n = rv.items
         return [("type", eng.as_int(t, st, None) == m.spec_subcluster_type_std(e0)), ("whole_cluster", eng.as_int(n, st, None) == 1)]
 
-    return FnContract(FILE, "get_subcluster_range_type", ["C01"], lambda: GeomModel(cb, False),
+    return FnContract(FILE, "get_subcluster_range_type", ["C01", "C07"], lambda: GeomModel(cb, False),
                       params=lambda m: {"qcow2": ObjV("qcow2"), "l2_entry": IntV(e0), "l2_bitmap": IntV(z3.IntVal(0)), "sc_from": IntV(z3.IntVal(0))},
                       requires=lambda m: [e0 >= 0, e0 <= U64], post=post, case=_case_name(cb, False))
 
